@@ -237,6 +237,22 @@ def run(ctx):
     lean, tables, driver, generated, obligations, failures = _lean(ctx, C16_GROUPS)
     failures += vlib.lean_failures(prop, lean)
     ctx.log("lean:", "ok" if lean.get("ok") else "NOT ok")
+    # the core model's operation-level interleavings of a sync round with block production (lean/core: Core/Interleave,
+    # Core/Props/Cinter, Core/Props/C16tick): which ones are simulated by a sequential history (theorem) and the one that
+    # is not (counterexample theorem = the known finding replayed by the tipswap-conflict placements below)
+    core_th = json.loads((Path(__file__).parent / "core_theorems.json").read_text()).get("C16")
+    if core_th:
+        lc = vlib.lean_check("core", core_th["theorems"], audit_file="audit/C16.lean", build_targets=["Core"] + core_th["modules"])
+        failures += vlib.lean_failures(prop, lc)
+        lean["theorems"] = lean.get("theorems", []) + lc["theorems"]
+        lean["forbidden_hits"] = lean.get("forbidden_hits", []) + lc["forbidden_hits"]
+        lean["ok"] = bool(lean.get("ok")) and lc["built"] and all(t["ok"] for t in lc["theorems"]) and not lc["forbidden_hits"]
+        lean["checker_cmd"] = lean.get("checker_cmd", "") + " && " + lc["checker_cmd"]
+        obligations.append({"name": "lean/core: a tick inside a sync round is simulated by a sequential history (stepX_shadow, runX_simulated); "
+                                    "a round inside block production is not (C16_tickSync_counterexample, the known finding), "
+                                    "unless the round keeps the ledger (tickSync_round_kept)",
+                            "ok": lc["built"] and all(t["ok"] for t in lc["theorems"])})
+        ctx.log("lean/core (interleavings):", "ok" if obligations[-1]["ok"] else "NOT ok")
     corr = {"evaluations": 0, "distinct_nontrivial": 0, "rule": "", "samples": [], "traces_validated_against_impl": 0}
     if tables is None:
         return vlib.result(lean=lean, corr=corr, failures=failures, generated=generated, extra_obligations=obligations,
